@@ -7,6 +7,12 @@ VERIF = os.path.dirname(os.path.dirname(os.path.abspath(__file__)))
 ALL = [f"C{i:02d}" for i in range(1, 21)]
 
 CLAIMS = {
+    "C19": dict(
+        text="Machine-checked Coq proofs of the round-trip law for the three freeze() encoders, for EVERY mapping with offsets strictly increasing from 0 and consecutive lines different, offset and line gaps unbounded (continuation entries are induction cases): findlinestarts(decode) of Code3/Code38's table (signed, any decreasing lines), of Code15/Code2's table (lines increasing; reads back under both the unsigned and the signed rule), and of Code310's range table (via co_lines()) returns the mapping. By the C05 theorems the decoders used are CPython's. Encoder models tied to /repo by in-Coq correspondence (dict and list inputs, boundary gaps); model-made tables are additionally decoded by the real 2.7, 3.6-3.10.",
+        note="Trusted: Coq kernel; hand model coq/Model/Freeze.v (while-loops as closed forms) + correspondence harness; C05 decoder theorems and spec validation. Hypotheses stated in the theorems: offsets start at 0, lie inside co_code, consecutive lines differ; for 1.5-2.7 lines do not decrease. No axioms.",
+        technique="Coq proof by induction (decode . encode = id) + in-Coq correspondence",
+        design="7/C19",
+    ),
     "C17": dict(
         text="Machine-checked Coq proofs over ALL lists of well-formed entries (five location-entry forms, varints of any length as digit lists, negative line deltas; four-varint exception entries): parse_exception_table(encode es) = the entries; Code311.co_lines() on the encoded table = CPython 3.12+'s co_lines() exactly and CPython 3.11's per code unit; co_positions() entries, expanded per code unit, = CPython's co_positions(). Bit-level facts proved by a lifted 256-value sweep. Models tied to /repo by in-Coq correspondence on encoder-made, truncated and random tables.",
         note="Trusted: Coq kernel; hand models coq/Model/CoLines.v, ExcTable.v + correspondence harness; Spec/Loc311.v, ExcTable.v (entries, CPython's encoders, semantics) validated on every run against co_lines()/co_positions()/dis._parse_exception_table of the installed 3.11, 3.12, 3.13. No axioms.",
